@@ -72,6 +72,9 @@ def run(prop, tier, seed, plan, feature=None, module="MC_Gen", release_too=None,
     return rep
 
 
+OPS_SAMPLE = {"quick": 40, "thorough": 400}
+
+
 def run_scenarios(rep, name, progs, binaries, prop, max_steps=400, trace=True):
     """progs: [(id, tokens)] built in Python; the reference machine (MC_MachineFile) supplies the expectation."""
     import mrun
@@ -109,6 +112,20 @@ def run_scenarios(rep, name, progs, binaries, prop, max_steps=400, trace=True):
         rep.coverage["traces_validated_by_TraceVm"] = rep.coverage.get("traces_validated_by_TraceVm", 0) + nt
         rep.coverage["events_validated_by_TraceVm"] = rep.coverage.get("events_validated_by_TraceVm", 0) + ne
         n += nt
+        # ... and, instruction by instruction, a behaviour of TraceOps.tla: every fetched instruction at an offset and with a
+        # value-stack height that the instruction table (Opcodes.tla) allows after the previous one - a spread sample per family
+        k = OPS_SAMPLE.get(rep.tier, 40)
+        sample = clean[:: max(1, len(clean) // k)][:k] if clean else []
+        if sample:
+            no = neo = 0
+            for bname, binary in binaries:
+                a, e = tracevm.validate_ops(rep, binary, bname, [mrun.case_of(r["id"] if "id" in r else i, r["prog"]) for i, r in enumerate(sample)],
+                                            "scenario family %s" % name, tag="to" + prop.lower() + name[:6])
+                no += a
+                neo += e
+            rep.coverage["traces_validated_by_TraceOps"] = rep.coverage.get("traces_validated_by_TraceOps", 0) + no
+            rep.coverage["instructions_validated_by_TraceOps"] = rep.coverage.get("instructions_validated_by_TraceOps", 0) + neo
+            n += no
     rep.coverage["states"] = rep.coverage.get("states", 0) + res.distinct
     rep.coverage["transitions"] = rep.coverage.get("transitions", 0) + res.generated
     rep.coverage["traces_validated_against_impl"] = rep.coverage.get("traces_validated_against_impl", 0) + n
